@@ -1553,6 +1553,9 @@ namespace bloch::runtime {
                 thisVal.objectValue = self;
                 thisVal.className = cur->name;
                 m_env.back()["this"] = {thisVal, false, true};
+                // The object may be dying because a function is returning: that 'return' is
+                // not the destructor's, whose body runs in full unless it returns itself.
+                m_hasReturn = false;
                 for (auto& stmt : cur->destructorDecl->body->statements) {
                     exec(stmt.get());
                     if (m_hasReturn)
